@@ -19,6 +19,13 @@ import traceback
 HERE = os.path.dirname(os.path.abspath(__file__))
 VERIF = os.path.dirname(HERE)
 sys.path.insert(0, VERIF)
+# the tier named on the command line decides the contract bounds (pyvc.config) and the second back ends (pyvc.path); both are
+# read from the environment when those modules are imported, so it is fixed here, before anything else is imported
+for _i, _a in enumerate(sys.argv):
+    if _a == "--tier" and _i + 1 < len(sys.argv):
+        os.environ["VERIF_TIER"] = sys.argv[_i + 1]
+    elif _a.startswith("--tier="):
+        os.environ["VERIF_TIER"] = _a.split("=", 1)[1]
 
 
 def _load(repo):
@@ -179,6 +186,8 @@ def main(argv=None):
         "prove_timeout_ms": 60000 if thorough else 15000,
         "feas_timeout_ms": 5000 if thorough else 3000,
         "keep_formulas": True,
+        "path_budget_s": int(os.environ.get("PYVC_PATH_BUDGET", "1800" if thorough else "300")),
+        "function_budget_s": int(os.environ.get("PYVC_FUNCTION_BUDGET", "7200" if thorough else "900")),
     }
     targets = [t for t, s in REG.contracts.items() if prop in s.props and not s.assumed]
     if args.only:
